@@ -31,6 +31,10 @@ class LineBudget(object):
   MODULES = ("pox.openflow.of_01", "pox.datapaths.switch", "pox.openflow.libopenflow_01", "pox.lib.ioworker",
              "pox.openflow.util")
 
+  # libopenflow_01._ofp_meta.__len__ answers len(<class without __len__>) by recursing into itself until
+  # RecursionError and swallowing it; a LINE callback at that depth cannot even be entered.  Not traced.
+  UNTRACED = frozenset(["_ofp_meta.__len__"])
+
   def __init__(self, modules=None):
     self.active = False
     self.count = 0
@@ -169,6 +173,8 @@ class LineBudget(object):
     if id(code) in seen or code.co_filename not in files:
       return
     seen.add(id(code))
+    if getattr(code, "co_qualname", "") in self.UNTRACED:
+      return
     codes.append(code)
     for k in code.co_consts:
       if hasattr(k, "co_code"):
